@@ -317,3 +317,10 @@ def h_settings_header_of(I, fi, args, kwargs, node):
         from .bytesmodel import blen
         I.assume(blen(body) == 6 * zint(n))       # 6 bytes per entry (assumed hyperframe contract)
     return SymStr('bytes', b64e(body))
+
+
+@hook('spec.specfns.hdr_is_informational')
+def h_spec_is_info(I, fi, args, kwargs, node):
+    if not is_hdr(I, args[0]):
+        return NotImplemented
+    return hl_info(I.heap.get(args[0]).fields['t'])
